@@ -512,6 +512,8 @@ class Engine:
                 return join(d, r)
             if last in ("filter", "or", "or_else", "take", "as_ref", "as_mut", "copied", "cloned"):
                 return a0 if a0 and a0[0] == "opt" else ("unk", dty)
+        if last == "default" and callee.startswith("core::default::Default") and dty in UNSIGNED + SIGNED:
+            return const_num(0.0 if dty in ("f64", "f32") else 0, vn)
         if last == "len" or last == "count":
             return num(NONNEG, None, vn)
         # workspace callee with a body: context-insensitive summary
